@@ -118,6 +118,9 @@ def zip_v1_classify(v0, v1):
 
 # OPC: [Content_Types].xml is not a part and cannot be referenced by the package signature: its local record, data and directory entry are unprotected
 FORMATS["vsix"]["unprotected_region"] = lambda label: label.split(":", 1)[-1] == "[Content_Types].xml" and label.split(":", 1)[0] in ("cd", "lfh", "data", "dd")
+# MS-CFB: DIFAT slots of the header, unallocated sectors and the slack behind a stream's last byte are allocation framing, not content
+# (a lenient reader such as relic's treats any negative DIFAT slot as free; the strict reader used here refuses the file)
+FORMATS["msi"]["unprotected_region"] = lambda label: label in ("cfb-header-difat", "unallocated") or label.startswith("stream-slack:")
 FORMATS["jar"]["classify"] = zip_v1_classify
 FORMATS["vsix"]["classify"] = zip_v1_classify
 FORMATS["rpm"]["classify"] = P.rpm_classify
